@@ -830,11 +830,19 @@ func (b *brokerCore) rawFirst(id int, data []byte, closes bool) string {
 	stoppedChans[sv] = c.stopped
 	stoppedMu.Unlock()
 	b.clients[id] = c
-	go b.svr.VerifServe(sv)
+	served := make(chan struct{})
+	go func() { b.svr.VerifServe(sv); close(served) }()
 	refused := func(items []string, ok bool) string {
 		if !ok {
 			items = append(items, "TIMEOUT")
 			c.conn.Close()
+		}
+		// the handler may still be busy with what the bytes made it allocate (up to 2 x 256 MB for an
+		// announced length): let it return before the next event starts its own connect deadline
+		select {
+		case <-served:
+		case <-time.After(brokerWait):
+			items = append(items, "SERVE-TIMEOUT")
 		}
 		items = append(items, "CLOSED")
 		c.dead = true
@@ -900,7 +908,9 @@ func firstFrameLen(data []byte) int {
 func (b *brokerCore) race(ws []string) string {
 	a, okA := b.clients[atoi(ws[1])]
 	p, okP := b.clients[atoi(ws[3])]
-	if !okA || !okP || a == p || a.dead || p.dead || !a.accepted || !p.accepted || p.mid() {
+	if !okA || !okP || a == p || a.dead || p.dead || !a.accepted || !p.accepted || p.mid() || a.mid() {
+		// (a mid-packet: its bytes would continue the pending packet instead of being what the event is
+		// about — bytes or a close that end the connection —, and the outcome would depend on the order)
 		return "-"
 	}
 	b.rawConn = a.id
